@@ -5,6 +5,9 @@
 #include <Bpp/Numeric/Function/GoldenSectionSearch.h>
 #include <Bpp/Numeric/Function/NewtonOneDimension.h>
 #include <Bpp/Numeric/Function/NewtonBacktrackOneDimension.h>
+#include <Bpp/Numeric/Function/DownhillSimplexMethod.h>
+#include <Bpp/Numeric/Function/SimpleMultiDimensions.h>
+#include <Bpp/Numeric/Function/PowellMultiDimensions.h>
 #include <Bpp/Numeric/Function/Functions.h>
 #include <Bpp/Numeric/AbstractParametrizable.h>
 #include <Bpp/Numeric/AutoParameter.h>
@@ -16,13 +19,20 @@
 #include <vector>
 using namespace bpp;
 using namespace std;
+#ifndef DSMAX
+#define DSMAX 5
+#endif
+#ifndef QALGOMAX
+#define QALGOMAX 1
+#endif
 #ifndef EVALMAX
 #define EVALMAX 6
 #endif
 
 class Obj : public virtual SecondOrderDerivable, public AbstractParametrizable {
 public:
-  mutable int evals = 0; int budget; bool boxed; double lo, hi;
+  mutable int evals = 0; int budget; bool boxed; double lo, hi; bool quad = false; double qa = 1, qm = 0, qc = 0;
+  double valueAt(double x) const { return qa * (x - qm) * (x - qm) + qc; }
   Obj(double x0, int budget_, bool boxed_ = false, double l = 0, double u = 0) : AbstractParametrizable(""), budget(budget_), boxed(boxed_), lo(l), hi(u) {
     if (boxed) addParameter_(new Parameter("x", x0, make_shared<IntervalConstraint>(l, u, true, true))); else addParameter_(new Parameter("x", x0)); }
   Obj* clone() const override { return new Obj(*this); }
@@ -30,6 +40,7 @@ public:
   double X() const { return getParameterValue("x"); }
   double getValue() const override { if (++evals > budget) __sym_prune();      // bounded exploration: runs needing more evaluations are outside the bound
     if (boxed) SYM_ASSERT(X() >= lo && X() <= hi, "objective evaluated outside its parameter's constraint");
+    if (quad) return valueAt(X());
     double v = __sym_apply("f", X()); SYM_ASSUME(v > -1e6 && v < 1e6);
 #ifdef SEPARATE
     // generic-position variant: objective values at different points differ by more than 1e-3 and are of moderate size, so that a counterexample survives the
@@ -40,11 +51,22 @@ public:
   mutable std::vector<std::pair<double, double>> hist;
   void enableFirstOrderDerivatives(bool) override {} bool enableFirstOrderDerivatives() const override { return true; }
   void enableSecondOrderDerivatives(bool) override {} bool enableSecondOrderDerivatives() const override { return true; }
-  double getFirstOrderDerivative(const string&) const override { double v = __sym_apply("df", X()); SYM_ASSUME(v > -1e6 && v < 1e6); return v; }
-  double getSecondOrderDerivative(const string&) const override { double v = __sym_apply("d2f", X()); SYM_ASSUME(v > -1e6 && v < 1e6 && !(v == 0)); return v; }
+  double getFirstOrderDerivative(const string&) const override { if (quad) return 2 * qa * (X() - qm); double v = __sym_apply("df", X()); SYM_ASSUME(v > -1e6 && v < 1e6); return v; }
+  double getSecondOrderDerivative(const string&) const override { if (quad) return 2 * qa; double v = __sym_apply("d2f", X()); SYM_ASSUME(v > -1e6 && v < 1e6 && !(v == 0)); return v; }
   double getSecondOrderDerivative(const string&, const string&) const override { return 0; }
 };
 static double F(double x) { return __sym_apply("f", x); }
+// two-variable objective: an uninterpreted function R^2 -> R (every claim holds for all objectives), optionally a strictly convex quadratic with symbolic minimiser
+class Obj2 : public virtual FunctionInterface, public AbstractParametrizable {
+public:
+  mutable int evals = 0; int budget; bool quad; double mx = 0, my = 0, ax = 1, ay = 1, c0 = 0;
+  Obj2(double x0, double y0, int budget_, bool quad_ = false) : AbstractParametrizable(""), budget(budget_), quad(quad_) { addParameter_(new Parameter("x", x0)); addParameter_(new Parameter("y", y0)); }
+  Obj2* clone() const override { return new Obj2(*this); }
+  void setParameters(const ParameterList& pl) override { matchParametersValues(pl); }
+  double X() const { return getParameterValue("x"); } double Y() const { return getParameterValue("y"); }
+  double at(double x, double y) const { if (quad) return ax * (x - mx) * (x - mx) + ay * (y - my) * (y - my) + c0; double v = __sym_apply2("f2", x, y); SYM_ASSUME(v > -1e6 && v < 1e6); return v; }
+  double getValue() const override { if (++evals > budget) __sym_prune(); return at(X(), Y()); }
+};
 static void quiet(AbstractOptimizer& o) { o.setVerbose(0); o.setProfiler(nullptr); o.setMessageHandler(nullptr); }
 
 extern "C" void verif_harness() {
@@ -101,6 +123,44 @@ extern "C" void verif_harness() {
     SYM_ASSERT(f->X() == xr, "objective is not left at the reported point");
     (void)nev;
     if (boxed) SYM_ASSERT(xr >= lo && xr <= hi, "reported point violates the constraint");
+  } else if (which == 6) {
+    // ---- downhill simplex in two dimensions, whole runs under an evaluation budget, from a concrete starting point (all probed points are then concrete on each path) ----
+    static const double SX[2] = {0.5, -2.0}, SY[2] = {-1.0, 0.0}; int k = __sym_choose("start", 0, 1);
+    int maxEval = __sym_choose("maxEval", 2, DSMAX);
+    auto f = make_shared<Obj2>(SX[k], SY[k], 40);
+    DownhillSimplexMethod opt(f); quiet(opt); opt.setConstraintPolicy(AutoParameter::CONSTRAINTS_KEEP); opt.setMaximumNumberOfEvaluations(maxEval);
+    opt.init(f->getParameters());
+    double start = f->at(SX[k], SY[k]);
+    double r = opt.optimize();
+    double xr = opt.getParameters()[0].getValue(), yr = opt.getParameters()[1].getValue();
+    SYM_ASSERT(r <= start, "downhill simplex ended on a worse value than the starting point's");
+    SYM_ASSERT_EQ(r, f->at(xr, yr), "value returned by the downhill simplex is not the objective at the reported point");
+    SYM_ASSERT(f->X() == xr && f->Y() == yr, "objective is not left at the reported point after the downhill simplex");
+    // evaluation budget: 3 for the initial simplex, then every iteration that starts below the budget may use up to 2 + 2 evaluations, plus the final one in optimize()
+    SYM_ASSERT(f->evals <= 3 + maxEval + 4 + 1, "downhill simplex exceeded its evaluation budget by more than the iteration in progress");
+  } else if (which == 7) {
+    // ---- strictly convex quadratic a(x-m)^2+c with symbolic a>0, m, c: whole runs of the one-dimensional optimisers reach the minimiser within their stopping tolerance ----
+    int algo = __sym_choose("optimiser", 0, QALGOMAX);
+    double qa = symd("qa"), qm = symd("qm"), qc = symd("qc"); SYM_ASSUME(qa > 0.01 && qa < 100 && qc > -100 && qc < 100);
+    if (algo == 0) {
+      double x0 = symd("x0"); SYM_ASSUME(x0 > -100 && x0 < 100 && !(x0 == 0) && qm > -100 && qm < 100 && !(qm == x0) && !(qm == 0));
+      auto f = make_shared<Obj>(x0, 12); f->quad = true; f->qa = qa; f->qm = qm; f->qc = qc;
+      NewtonOneDimension opt(f); quiet(opt); opt.setConstraintPolicy(AutoParameter::CONSTRAINTS_KEEP); opt.setMaximumNumberOfEvaluations(6); opt.init(f->getParameters());
+      double r = opt.optimize(); double xr = opt.getParameters()[0].getValue();
+      SYM_ASSERT_EQ(xr, qm, "Newton on a strictly convex quadratic did not reach the minimiser");
+      SYM_ASSERT_EQ(r, qc, "Newton on a strictly convex quadratic did not return the minimum"); SYM_ASSERT(f->X() == xr, "objective is not left at the reported point");
+    } else {
+      // Brent with inward bracketing on [0,1], minimiser inside; stopping tolerance 0.05 (forked: 0.2): on termination the minimiser is within tol2 = 2(tol|x|+ZEPS) of the reported point
+      static const double TOLS[2] = {0.05, 0.2}; double tol = TOLS[__sym_choose("tolerance", 0, 1)];
+      SYM_ASSUME(qm > 0.02 && qm < 0.98); double p0 = 0.5;
+      auto f = make_shared<Obj>(p0, 30); f->quad = true; f->qa = qa; f->qm = qm; f->qc = qc;
+      BrentOneDimension opt(f); quiet(opt); opt.setBracketing(BrentOneDimension::BRACKET_INWARD); opt.setInitialInterval(0, 1); opt.setConstraintPolicy(AutoParameter::CONSTRAINTS_KEEP);
+      opt.getStopCondition()->setTolerance(tol); opt.setMaximumNumberOfEvaluations(25); opt.init(f->getParameters());
+      double r = opt.optimize(); double xr = opt.getParameters()[0].getValue();
+      SYM_ASSERT(opt.isToleranceReached(), "Brent on a strictly convex quadratic did not converge within 25 steps at tolerance >= 0.05");
+      SYM_ASSERT(fabs(xr - qm) <= 2 * (tol * fabs(xr) + 1e-10) + 1e-9, "Brent stopped further from the quadratic's minimiser than its stopping tolerance allows");
+      SYM_ASSERT_EQ(r, f->valueAt(xr), "Brent: returned value is not the objective at the reported point (quadratic)"); SYM_ASSERT(r <= f->valueAt(p0), "Brent ended worse than it started (quadratic)");
+    }
   } else {
     // ---- backtracking line search: up to three steps ----
     double slope = symd("slope"); SYM_ASSUME(slope < 0 && slope > -100);
